@@ -342,8 +342,9 @@ func genCase(rt *rapid.T, disk bool, salt int) (*caseSpec, []string) {
 	c.Path = "/" + rapid.StringMatching(`[a-z0-9]{1,6}(/[a-z0-9_]{1,6}){0,2}`).Draw(rt, "path")
 	g := &caseGen{rt: rt, c: c, F: int64(c.Fragment) * 90000, cad: 1024 * 90000 / int64(ac.rate)}
 	g.paramSetMode(base, c.Fragment > 0, 8)
-	if c.Fragment == 0 {
-		g.F = 90000
+	if disk {
+		// about a fifth of the disk cases start in a directory with a history
+		c.Earlier = rapid.SampledFrom([]string{"", "killed", "killed", "republished", "", "", "", "", "", "", "", "", "", "", "", ""}).Draw(rt, "earlierLife")
 	}
 	g.now = rapid.SampledFrom([]int64{0, 0, 1, 2999, 90000, 12345678, 1 << 31, 8000000000}).Draw(rt, "t0")
 	g.ta = g.now
